@@ -328,6 +328,9 @@ pub fn check(rec: &mut Recorder, c: &S2Case) -> Result<(), String> {
     };
     let clipped = entry < 0x800_0000;
     rec.class(&format!("{vname}/{occ}/{}{}{}", if o.installed.first() == Some(&true) { "installed" } else { "refused" }, if clipped { "/clipped" } else { "" }, if c.twice { "/twice" } else { "" }));
+    if let Some(p) = o.panics.iter().find(|p| p.contains("placement search does not terminate")) {
+        return rec.fail(&sig("placement-search-does-not-terminate"), format!("the allocator kept probing without end (the model stopped it: {p}): an installation must either place its trampoline or fail with a panic; case {c:?}"));
+    }
     // ---- release discipline (C11 / C12 on these paths)
     if o.double_unmaps != 0 || o.foreign_unmaps != 0 {
         return rec.fail(&sig("bad-release"), format!("{} duplicate and {} foreign munmap calls; case {c:?}", o.double_unmaps, o.foreign_unmaps));
